@@ -134,7 +134,7 @@ func (r *recorder) finish(primary string) Result {
 	r.res.Primary = primary
 	r.res.Obs = primary
 	for _, c := range r.res.Calls {
-		if c.Verdict == PANIC || c.Verdict == HANG {
+		if c.Verdict == PANIC || c.Verdict == HANG || c.Verdict == DIFF {
 			r.res.Obs = c.Verdict
 			r.res.Detail = c.Name + ": " + c.Detail
 			break
@@ -240,7 +240,7 @@ func runJobs(jobs []job, out string) (int, error) {
 				if j.model != nil && (r.Primary == OK || r.Primary == ERR) {
 					c.CoqModel = j.model(j.in, r)
 				}
-				if !(r.Obs == PANIC || r.Obs == HANG) && (len(j.in.File) > 300 || j.in.Dir != nil) {
+				if !(r.Obs == PANIC || r.Obs == HANG || r.Obs == DIFF) && (len(j.in.File) > 300 || j.in.Dir != nil) {
 					// keep the case file small: large passing inputs are summarised
 					j.in = j.in.summary()
 					c.Input = j.in
@@ -334,7 +334,7 @@ func main() {
 		for _, c := range r.Calls {
 			fmt.Fprintf(realStdout, "  %-40s %s %s\n", c.Name, c.Verdict, c.Detail)
 		}
-		fmt.Fprintf(realStdout, "property demands: OK or ERR for every call (never PANIC, never HANG)\n")
+		fmt.Fprintf(realStdout, "property demands: OK or ERR for every call (never PANIC, never HANG; for null-members inputs the same verdict as the twin with empty members, never DIFF)\n")
 	case "corpus":
 		if err := writeCorpus(os.Args[2]); err != nil {
 			fmt.Fprintln(os.Stderr, err)
